@@ -7,8 +7,9 @@ package tlv
 // tree's stream decoder is only compiled from here).
 //
 // It feeds byte strings to the four decoding entry points of a real
-// tlv.Stream with a record table of known types {1: uint8, 2: variable
-// bytes, 3: uint16} and records what the code did.  There is no judgement in
+// tlv.Stream with a record table of known types {1: uint8, 2: []byte,
+// 3: uint16} (the package's own primitive records: DUint8, DVarBytes,
+// DUint16) and records what the code did.  There is no judgement in
 // this file: spec/TlvStream/TlvStreamTrace.tla decides.
 //
 // Inputs:  VERIF_L   = n   all byte strings of length <= n over c10Alphabet
@@ -36,31 +37,6 @@ var c10Alphabet = []byte{0x00, 0x01, 0x02, 0x03, 0xfc, 0xfd, 0xfe, 0xff}
 
 const c10Sentinel = 0x5a
 
-// c10DVar is a decoder for a variable-size record that takes nothing from
-// the claimed length on trust (no pre-allocation, no signed conversion).
-func c10DVar(r io.Reader, val interface{}, _ *[8]byte, l uint64) error {
-	b := val.(*[]byte)
-	out := make([]byte, 0, 16)
-	var chunk [4096]byte
-	for uint64(len(out)) < l {
-		want := l - uint64(len(out))
-		if want > uint64(len(chunk)) {
-			want = uint64(len(chunk))
-		}
-		n, err := r.Read(chunk[:want])
-		out = append(out, chunk[:n]...)
-		if err == io.EOF || (err == nil && n == 0) {
-			if uint64(len(out)) < l {
-				return io.ErrUnexpectedEOF
-			}
-		} else if err != nil {
-			return err
-		}
-	}
-	*b = out
-	return nil
-}
-
 type c10Table struct {
 	v1 uint8
 	v2 []byte
@@ -72,7 +48,7 @@ func c10NewTable() *c10Table {
 	t := &c10Table{v1: c10Sentinel, v2: []byte{c10Sentinel}, v3: c10Sentinel<<8 | c10Sentinel}
 	t.s = MustNewStream(
 		MakePrimitiveRecord(1, &t.v1),
-		MakeDynamicRecord(2, &t.v2, func() uint64 { return uint64(len(t.v2)) }, EVarBytes, c10DVar),
+		MakePrimitiveRecord(2, &t.v2),
 		MakePrimitiveRecord(3, &t.v3),
 	)
 	return t
@@ -257,8 +233,7 @@ func c10Run(api string, in []byte, risky bool) (res c10Res) {
 			case k == 1:
 				recs = append(recs, MakePrimitiveRecord(1, &tb.v1))
 			case k == 2:
-				recs = append(recs, MakeDynamicRecord(2, &tb.v2,
-					func() uint64 { return uint64(len(tb.v2)) }, EVarBytes, c10DVar))
+				recs = append(recs, MakePrimitiveRecord(2, &tb.v2))
 			case k == 3:
 				recs = append(recs, MakePrimitiveRecord(3, &tb.v3))
 			default:
